@@ -40,11 +40,15 @@ def generate(ctx):
                           center=str(rng.choice(['peak', 'trough'])), method=method, th=th, family=s['family']))
     return cases
 
+_objs = {}
 def _run(c, sig, fs, fr):
     from bycycle.features import compute_features
-    fk = None if c['n_cycles'] is None else {'n_cycles': c['n_cycles']}
-    return implutil.quiet(compute_features, sig, fs, fr, center_extrema=c['center'], burst_method=c['method'],
-                          threshold_kwargs=(dict(c['th']) if c['th'] else {}), find_extrema_kwargs=implutil.fe_kwargs(fk, c['boundary'], None))
+    if id(c) not in _objs:       # both runs of one case use the SAME option objects
+        _objs.clear()
+        fk = None if c['n_cycles'] is None else {'n_cycles': c['n_cycles']}
+        _objs[id(c)] = (dict(c['th']) if c['th'] else {}, implutil.fe_kwargs(fk, c['boundary'], None))
+    th, fek = _objs[id(c)]
+    return implutil.quiet(compute_features, sig, fs, fr, center_extrema=c['center'], burst_method=c['method'], threshold_kwargs=th, find_extrema_kwargs=fek)
 
 def evaluate(ctx, cases):
     out = []
@@ -59,6 +63,8 @@ def evaluate(ctx, cases):
             except Exception as e:
                 res.append(type(e).__name__ + ': ' + str(e)[:60])
         info = {}
+        if any(isinstance(r, str) and 'HistoryDependence' in r for r in res):
+            out.append(Result(c, judge_ok=False, corr_ok=False, sig=key, nontrivial=True, info=dict(judge=[r for r in res if isinstance(r, str)][0]))); continue
         if isinstance(res[0], str) and isinstance(res[1], str):
             ctx.hist('outcome', 'both raised (C01)')
             out.append(Result(c, sig=key, nontrivial=False, info=dict(skipped=res[0]))); continue
